@@ -298,7 +298,79 @@ func (rw *fileRewriter) siteLit(pos token.Pos) *ast.BasicLit {
 	return &ast.BasicLit{Kind: token.STRING, Value: strconv.Quote(rw.site(pos))}
 }
 
+// rewriteGoStmts puts every `go` statement behind the goroutine scheduling
+// seam: id := Spawn(site); go func(){ Park(id, site); call }(); Yield(site).
+// Function value and arguments are still evaluated in the calling goroutine
+// at the go statement, as the language requires.
+func (rw *fileRewriter) rewriteGoStmts() {
+	counter := 0
+	fix := func(list []ast.Stmt) []ast.Stmt {
+		has := false
+		for _, st := range list {
+			if _, ok := st.(*ast.GoStmt); ok {
+				has = true
+			}
+		}
+		if !has {
+			return list
+		}
+		var out []ast.Stmt
+		for _, st := range list {
+			g, ok := st.(*ast.GoStmt)
+			if !ok {
+				out = append(out, st)
+				continue
+			}
+			counter++
+			site := rw.siteLit(g.Pos())
+			idName := fmt.Sprintf("vsimGid%d", counter)
+			rw.seam("go", g.Pos(), "go "+types.ExprString(g.Call.Fun))
+			out = append(out, &ast.AssignStmt{Lhs: []ast.Expr{ast.NewIdent(idName)}, Tok: token.DEFINE, Rhs: []ast.Expr{&ast.CallExpr{Fun: rw.simSel("Spawn"), Args: []ast.Expr{site}}}})
+			park := &ast.ExprStmt{X: &ast.CallExpr{Fun: rw.simSel("Park"), Args: []ast.Expr{ast.NewIdent(idName), rw.siteLit(g.Pos())}}}
+			if fl, ok := g.Call.Fun.(*ast.FuncLit); ok {
+				fl.Body.List = append([]ast.Stmt{park}, fl.Body.List...)
+				out = append(out, g)
+			} else {
+				// bind function value and non-constant arguments now, call later
+				fnName := fmt.Sprintf("vsimGf%d", counter)
+				out = append(out, &ast.AssignStmt{Lhs: []ast.Expr{ast.NewIdent(fnName)}, Tok: token.DEFINE, Rhs: []ast.Expr{g.Call.Fun}})
+				var args []ast.Expr
+				for i, a := range g.Call.Args {
+					tv, known := rw.info.Types[a]
+					if known && (tv.Value != nil || tv.IsNil()) {
+						args = append(args, a)
+						continue
+					}
+					an := fmt.Sprintf("vsimGa%d_%d", counter, i)
+					out = append(out, &ast.AssignStmt{Lhs: []ast.Expr{ast.NewIdent(an)}, Tok: token.DEFINE, Rhs: []ast.Expr{a}})
+					args = append(args, ast.NewIdent(an))
+				}
+				call := &ast.CallExpr{Fun: ast.NewIdent(fnName), Args: args, Ellipsis: g.Call.Ellipsis}
+				if g.Call.Ellipsis.IsValid() {
+					call.Ellipsis = 1
+				}
+				body := &ast.BlockStmt{List: []ast.Stmt{park, &ast.ExprStmt{X: call}}}
+				out = append(out, &ast.GoStmt{Call: &ast.CallExpr{Fun: &ast.FuncLit{Type: &ast.FuncType{Params: &ast.FieldList{}}, Body: body}}})
+			}
+			out = append(out, &ast.ExprStmt{X: &ast.CallExpr{Fun: rw.simSel("Yield"), Args: []ast.Expr{rw.siteLit(g.Pos())}}})
+		}
+		return out
+	}
+	ast.Inspect(rw.file, func(n ast.Node) bool {
+		switch x := n.(type) {
+		case *ast.BlockStmt:
+			x.List = fix(x.List)
+		case *ast.CaseClause:
+			x.Body = fix(x.Body)
+		case *ast.CommClause:
+			x.Body = fix(x.Body)
+		}
+		return true
+	})
+}
+
 func (rw *fileRewriter) run(isMain bool) {
+	rw.rewriteGoStmts()
 	handled := map[*ast.SelectorExpr]bool{}
 	ast.Inspect(rw.file, func(n ast.Node) bool {
 		switch x := n.(type) {
@@ -307,8 +379,10 @@ func (rw *fileRewriter) run(isMain bool) {
 				rw.seam("maprange", x.Pos(), "range over "+types.ExprString(x.X)+" : "+rw.info.TypeOf(x.X).String())
 				x.X = &ast.CallExpr{Fun: rw.simSel("RangeMap"), Args: []ast.Expr{rw.siteLit(x.Pos()), x.X}}
 			}
-		case *ast.GoStmt:
-			rw.unseamed(x.Pos(), "go statement (goroutine scheduling is not behind a seam)")
+		case *ast.LabeledStmt:
+			if _, ok := x.Stmt.(*ast.GoStmt); ok {
+				rw.unseamed(x.Pos(), "labeled go statement (not rewritten)")
+			}
 		case *ast.SelectStmt:
 			rw.unseamed(x.Pos(), "select statement (channel choice is not behind a seam)")
 		case *ast.CallExpr:
